@@ -8,6 +8,7 @@ import (
 
 	"github.com/tobgu/qframe"
 	"github.com/tobgu/qframe/config/groupby"
+	"github.com/tobgu/qframe/config/newqf"
 
 	"qverif/fw"
 	"qverif/model"
@@ -124,3 +125,5 @@ func aggregateDerive(rng *rand.Rand, root *model.Root) *model.Root {
 	meta.Apply(obs)
 	return &model.Root{Shadow: obs, QF: res, Path: root.Path, Ops: append(append([]string{}, root.Ops...), fmt.Sprintf("GroupBy(%q).Aggregate(min __id, first of the rest)", key)), Shape: model.IndexShape(res)}
 }
+
+func newqfEnums(m map[string][]string) newqf.ConfigFunc { return newqf.Enums(m) }
